@@ -15,7 +15,7 @@ usage: c17_driver.py <quick|thorough>   (env VERIF_SEED)
 import json, math, os, random, struct, sys, time
 
 ROOT = "/verif"
-sys.path.insert(0, os.path.join(ROOT, "py"))
+sys.path.insert(0, os.environ.get("NDVERIF_SO_DIR") or os.path.join(ROOT, "py"))  # NDVERIF_SO_DIR: coverage lane only
 import numpy as np
 import ndverif
 
@@ -454,26 +454,104 @@ def huge_int_pow(rng, cls):
 
 
 def numpy_ops(rng, cls):
-    """dual op ndarray: float arrays and object arrays must be the element-wise scalar operation"""
-    p = [rnd_part(rng) for _ in range(NPARTS[cls])]
-    q = [rnd_part(rng) for _ in range(NPARTS[cls])]
-    w = [rnd_part(rng) for _ in range(NPARTS[cls])]
-    x, y, z = make_scalar(cls, p), make_scalar(cls, q), make_scalar(cls, w)
-    cs = [float(np.float32(rnd_part(rng))) for _ in range(3)]
-    case = {"class": cls, "x": p, "y": q, "z": w, "floats": cs}
+    """dual op ndarray (and ndarray op dual): float arrays and object arrays of every shape and memory
+    layout must give the element-wise scalar operation, as a new array, leaving the operand untouched"""
     import operator
-    for name, op in [("add", operator.add), ("sub", operator.sub), ("mul", operator.mul), ("truediv", operator.truediv)]:
-        ACC.observe("ndarray-float:%s|%s" % (name, cls))
-        arr = op(x, np.array(cs))
-        want = [op(x, c) for c in cs]
-        if [repr(a) for a in arr] != [repr(a) for a in want]:
-            ACC.violate("ndarray-float:%s:%s" % (name, cls), "%s %s float ndarray gives %r, element-wise scalar operation gives %r" % (cls, name, list(arr), want), case)
-        ACC.observe("ndarray-object:%s|%s" % (name, cls))
-        oarr = np.array([y, z], dtype=object)
-        got = op(x, oarr)
-        want = [op(x, y), op(x, z)]
-        if [repr(a) for a in got] != [repr(a) for a in want]:
-            ACC.violate("ndarray-object:%s:%s" % (name, cls), "%s %s object ndarray gives %r, element-wise operation gives %r" % (cls, name, list(got), want), case)
+    p = [rnd_part(rng) for _ in range(NPARTS[cls])]
+    x = make_scalar(cls, p)
+    OPS = [("add", operator.add), ("sub", operator.sub), ("mul", operator.mul), ("truediv", operator.truediv)]
+
+    def fl():
+        return float(np.float32(rnd_part(rng)))
+
+    def du():
+        return make_scalar(cls, [rnd_part(rng) for _ in range(NPARTS[cls])])
+
+    # (layout name, array builder) -- every builder returns a fresh array
+    def float_arrays():
+        base = np.array([[fl() for _ in range(3)] for _ in range(2)])
+        cube = np.array([[[fl() for _ in range(2)] for _ in range(3)] for _ in range(2)])
+        return [("1d", np.array([fl() for _ in range(3)])), ("2d-C", base.copy()), ("2d-transposed", base.T), ("2d-fortran", np.asfortranarray(base)),
+                ("1d-reversed", np.array([fl() for _ in range(4)])[::-1]), ("1d-strided", np.array([fl() for _ in range(6)])[::2]),
+                ("3d-transposed", cube.transpose(2, 0, 1)), ("2d-column-slice", base[:, 1:]), ("empty", np.array([], dtype=float)), ("0d", np.array(fl())), ("1x1", np.array([[fl()]]))]
+
+    def object_arrays():
+        def grid(r, c):
+            a = np.empty((r, c), dtype=object)
+            for i in range(r):
+                for k in range(c):
+                    a[i, k] = du()
+            return a
+        one = np.empty(3, dtype=object)
+        for i in range(3):
+            one[i] = du()
+        g = grid(2, 3)
+        zero_d = np.empty((), dtype=object)
+        zero_d[()] = du()
+        return [("1d", one), ("2d-C", grid(2, 2)), ("2d-transposed", g.T), ("1d-reversed", one.copy()[::-1]), ("1x1", grid(1, 1)), ("empty", np.array([], dtype=object)), ("0d", zero_d)]
+
+    for name, op in OPS:
+        for kind, arrays in (("float", float_arrays()), ("object", object_arrays())):
+            for layout, arr in arrays:
+                cls_key = "ndarray-%s:%s:%s|%s" % (kind, name, layout, cls)
+                ACC.observe(cls_key)
+                case = {"class": cls, "x": p, "op": name, "kind": kind, "layout": layout, "shape": list(arr.shape), "array": [repr(e) for e in arr.flat]}
+                before = list(arr.flat)
+                before_repr = [repr(e) for e in before]
+                try:
+                    got = op(x, arr)
+                except BaseException as e:  # noqa
+                    _reraise_control(e)
+                    ACC.violate("ndarray-%s:%s:%s:raised" % (kind, layout, cls), "%s %s %s ndarray of shape %s raised %s: %s" % (cls, name, kind, arr.shape, type(e).__name__, str(e)[:200]), case)
+                    continue
+                want = [op(x, e) for e in before]
+                got_arr = np.asarray(got, dtype=object)
+                if got_arr.shape != arr.shape:
+                    ACC.violate("ndarray-%s:%s:%s:shape" % (kind, layout, cls), "%s %s %s ndarray of shape %s returns shape %s" % (cls, name, kind, arr.shape, got_arr.shape), case)
+                    continue
+                # compare index by index (not in memory order)
+                bad = None
+                for n_, idx in enumerate(np.ndindex(*arr.shape)):
+                    w = op(x, arr[idx]) if kind == "float" else op(x, before[n_])
+                    if repr(got_arr[idx]) != repr(w):
+                        bad = (idx, repr(got_arr[idx]), repr(w))
+                        break
+                if bad is not None:
+                    ACC.violate("ndarray-%s:%s:%s" % (kind, name, cls), "%s %s %s ndarray (%s, shape %s): element %s is %s, the scalar operation gives %s" % (cls, name, kind, layout, arr.shape, bad[0], bad[1], bad[2]), case)
+                # the operand itself must be left alone
+                after = list(arr.flat)
+                if got is arr or len(after) != len(before) or (kind == "object" and any(a is not b for a, b in zip(after, before))) or [repr(e) for e in after] != before_repr:
+                    ACC.violate("ndarray-%s:operand-overwritten:%s" % (kind, cls), "%s %s %s ndarray (%s): the right operand was modified by the operation (result is operand: %s); before %r, after %r" % (cls, name, kind, layout, got is arr, before_repr[:4], [repr(e) for e in after][:4]), case)
+                _ = want
+                # reflected: ndarray op dual goes through numpy's element-wise dispatch
+                if layout in ("1d", "2d-C", "2d-transposed") :
+                    ACC.observe("ndarray-%s-reflected:%s:%s|%s" % (kind, name, layout, cls))
+                    try:
+                        got = op(arr, x)
+                        got_arr = np.asarray(got, dtype=object)
+                        for idx in np.ndindex(*arr.shape):
+                            w = op(arr[idx], x)
+                            if repr(got_arr[idx]) != repr(w):
+                                ACC.violate("ndarray-%s-reflected:%s:%s" % (kind, name, cls), "%s ndarray (%s) %s %s: element %s is %r, the scalar operation gives %r" % (kind, layout, name, cls, idx, got_arr[idx], w), case)
+                                break
+                    except BaseException as e:  # noqa
+                        _reraise_control(e)
+                        ACC.violate("ndarray-%s-reflected:%s:raised" % (kind, cls), "%s ndarray (%s) %s %s raised %s: %s" % (kind, layout, name, cls, type(e).__name__, str(e)[:200]), case)
+    # a small program that uses the same array twice: the second use must see the original values
+    ACC.observe("ndarray-object:reuse-of-operand|%s" % cls)
+    y, z = du(), du()
+    arr = np.empty(2, dtype=object)
+    arr[0], arr[1] = y, z
+    try:
+        first = x + arr
+        second = x * arr
+        want = [x * y, x * z]
+        if [repr(e) for e in second] != [repr(e) for e in want]:
+            ACC.violate("ndarray-object:reuse-of-operand:%s" % cls, "b = x + a; c = x * a: c is %r, x * (original a) is %r" % (list(second), want), {"class": cls, "x": p})
+        _ = first
+    except BaseException as e:  # noqa
+        _reraise_control(e)
+        ACC.violate("ndarray-object:reuse-of-operand:%s:raised" % cls, "raised %r" % (e,), {"class": cls})
 
 
 # ------------------------------------------------------------------ drivers
@@ -696,7 +774,7 @@ def finish():
         "wall_s": time.time() - T0, "violations": len(real),
     }
     os.makedirs(os.path.join(ROOT, "evidence"), exist_ok=True)
-    json.dump(ev, open(os.path.join(ROOT, "evidence", "C17.json"), "w"), indent=1, default=str)
+    json.dump(ev, open(os.environ.get("VERIF_EVIDENCE_PATH") or os.path.join(ROOT, "evidence", "C17.json"), "w"), indent=1, default=str)
     for k, v in hit.items():
         print("KNOWN-FINDING: property=C17 sig=%s cases=%d e.g. %s" % (k, len(v), v[0][:300]))
     print("C17: tier=%s seed=%d evaluations=%d distinct_nontrivial=%d classes=%d wall=%.1fs verdict=%s" % (TIER, SEED, ACC.evaluations, len(ACC.nontrivial), len(ACC.classes), time.time() - T0, verdict))
